@@ -575,6 +575,46 @@ def compareF (env : NumEnv) (cs : Bool) : Nat → JVal → JVal → Bool
 /-- `aws_json_value_compare` -/
 def compare (env : NumEnv) (cs : Bool) (a b : JVal) : Bool := compareF env cs (depth a + 1) a b
 
+/-! ### borrowed references: a child reached through `get_from_object` / `get_array_element`
+
+The API hands out pointers into the tree; an operation through such a pointer changes the tree
+that owns it.  `Step`/`getAt`/`setAt` give that a value-level meaning: follow the getters, operate
+on the child, put the result back in the same position. -/
+
+inductive Step where
+  | key (k : Bytes)   -- `aws_json_value_get_from_object(·, k)` (k already a C string)
+  | idx (i : Nat)     -- `aws_json_get_array_element(·, i)`
+deriving Repr, DecidableEq
+
+/-- replace the value of the first member whose key matches (case-insensitively) -/
+def setMember (k : Bytes) (v' : JVal) : List (Bytes × JVal) → List (Bytes × JVal)
+  | [] => []
+  | m :: r => if keyEq false k m.1 then (m.1, v') :: r else m :: setMember k v' r
+
+def getStep (t : JVal) : Step → Except Err JVal
+  | .key k => getFromObject t k
+  | .idx i => getArrayElement t i
+
+def getAt (t : JVal) : List Step → Except Err JVal
+  | [] => .ok t
+  | s :: r => match getStep t s with
+    | .ok c => getAt c r
+    | .error e => .error e
+
+/-- the tree after the child at the path became `v'` (unchanged if the path does not resolve) -/
+def setAt (t : JVal) (path : List Step) (v' : JVal) : JVal :=
+  match path with
+  | [] => v'
+  | s :: r =>
+    match getStep t s with
+    | .error _ => t
+    | .ok c =>
+      let c' := setAt c r v'
+      match t, s with
+      | .obj ms, .key k => .obj (setMember k c' ms)
+      | .arr xs, .idx i => .arr (xs.set i c')
+      | _, _ => t
+
 /-! ### constructors and getters of json.c -/
 
 /-- `aws_json_value_new_string` (cursor → C string) -/
